@@ -74,11 +74,15 @@ TOKEN_BASE = 100     # a Token n travels to the model as the hashable atom 100+n
 
 def fmk(v, salt=0):
     """FrozenDict value: ['h', id] hashable object, ['u', n] an unhashable container holding n,
-    ['t', n] a Token (hashable, process-dependent hash)"""
+    ['t', n] a Token (hashable, process-dependent hash), ['f', [[k, v], ...]] another FrozenDict (one level:
+    its values are h / u / t) - hashable iff all ITS values are, equal to any FrozenDict with the same items"""
     if v[0] == 'h':
         return mk(v[1], salt)
     if v[0] == 't':
         return Token(v[1])
+    if v[0] == 'f':
+        from boltons.dictutils import FrozenDict
+        return FrozenDict([(mk(k, salt + j), fmk(x, salt + j + 1)) for j, (k, x) in enumerate(v[1])])
     return [v[1]]
 
 
@@ -87,8 +91,33 @@ def fval(o):
         return ['u', o[0]]
     if isinstance(o, Token):
         return ['t', o.n]
+    if isinstance(o, dict) and type(o).__name__ == 'FrozenDict':
+        # canonical: sorted by key id, so that equal inner FrozenDicts read alike whatever their insertion order
+        return ['f', sorted(([oid(k), fval(x)] for k, x in o.items()), key=lambda p: str(p[0]))]
     i = oid(o)
     return ['h', i]
+
+
+def fcanon(inner):
+    """the items of an inner FrozenDict as a dict would hold them (a key once, last value), sorted"""
+    d = {}
+    for k, x in inner:
+        d[k] = (x[0], x[1])
+    return sorted(d.items(), key=lambda p: str(p[0]))
+
+
+def funh(v):
+    """raw value (list form): is it unhashable?"""
+    return v[0] == 'u' or (v[0] == 'f' and any(x[0] == 'u' for _, x in fcanon(v[1])))
+
+
+def fcode(inner):
+    """an inner FrozenDict travels to the model as ONE atom: a number that is a function of its item SET"""
+    n = 0
+    for k, (kind, num) in fcanon(inner):
+        c = num if kind == 'h' else 16 + num if kind == 't' else 19 + num
+        n = n * 401 + (int(k) * 25 + c) + 1
+    return 100000 + n
 
 
 def one_shot(pairs):
@@ -98,7 +127,7 @@ def one_shot(pairs):
 class C17(Property):
     PID = 'C17'
     QUICK_BUDGET_S = 40
-    THOROUGH_BUDGET_S = 600
+    THOROUGH_BUDGET_S = 500
     RULE = ('a case is one whole history over a register file of OneToOne (or ManyToMany, or one FrozenDict) '
             'instances: constructors from dict / pairs / one-shot iterator / kwargs / another instance (either '
             'side; OneToOne.unique too), copy, and every mutator applied through the forward object or through the '
@@ -113,51 +142,194 @@ class C17(Property):
             'another instance and then mutated on either one; exhaustive: all histories of <= 2 commands '
             '(thorough: also all of exactly 3 from two start states, budget permitting) over 2 object ids from '
             'several start states; random histories up to 25 (thorough 80) commands over <= 10 ids with '
-            '==-aliases (1/1.0/True, 0/0.0/False, None). Non-trivial = some command evicted or merged an '
+            '==-aliases (1/1.0/True, 0/0.0/False, None). Round 3: OneToOne arguments travel to the model as '
+            'written (kind + raw pairs, dict arguments with a key written twice); one-shot iterators the caller '
+            'keeps, takes items off (next) and passes again - to update, |=, the constructors, several instances - '
+            'in a fixed family (0/1/2/all items taken first, every first and second consumer) and in a third of the '
+            'random histories; every ManyToMany dump carries the readers len / keys / get / in / m[k] of both sides '
+            'on every id the history mentions plus two it does not. Non-trivial = some command evicted or merged an '
             'existing pair / read from another instance / raised; distinct = distinct history.')
     ASSUMPTIONS = ['keys and values are hashable, == is an equivalence consistent with hash, no NaN',
                    'update/constructor arguments are dicts, lists of pairs, one-shot iterators of pairs, keyword '
                    'arguments or another instance of the same class (non-dict Mapping objects are outside the model)',
+                   'update() with a dict / keyword dict that carries one value under two keys: which key keeps the value '
+                   'is left open (any order of walking that dict is accepted by the oracle); the model walks it in '
+                   'insertion order, like the code',
                    'FrozenDict: "mutating dict operation" = __setitem__ __delitem__ __ior__ update setdefault pop '
                    'popitem clear (re-running __init__ is not an operation of the statement)']
     CORRESPONDENCE_NAME = ('C17.Driver (OneToOne / ManyToMany by value AND heap-level with set-object identities / '
                            'FrozenDict models) vs boltons.dictutils')
-    EXTRA_TRUSTED = ['C17 translator (regen): AST scan of class FrozenDict for names bound to _raise_frozen_typeerror, '
-                     'and of class OneToOne for the methods it defines itself']
+    EXTRA_TRUSTED = ['C17 translator (regen): the evaluated classes FrozenDict / OneToOne (what each mutator name resolves to '
+                     'through the MRO before dict) plus a static check of the resolved function: straight-line, '
+                     'effect-free, closed by one raise of an exception class']
 
     # ------------------------------------------------------------------ translator
+    # The tables are read off the EVALUATED classes (what the interpreter resolves `FrozenDict.clear` /
+    # `OneToOne.__ior__` to), not off the shape of the class body: names bound one by one, through a helper, a
+    # factory, a loop over names or a mixin all give the same table.  What is decided statically is only whether
+    # the function a mutator name resolves to is an unconditional raiser (see `_raiser_class`).
+    DICT_MUTATORS = ('__setitem__', '__delitem__', '__ior__', 'update', 'setdefault', 'pop', 'popitem', 'clear')
+    PURE_BUILTINS = ('type', 'str', 'repr', 'len', 'format', 'id', 'isinstance', 'getattr')
+
+    @classmethod
+    def _pure(cls, e, fn, local):
+        """expression without effects on the object: names, attributes, constants, formatting, containers and
+        calls of a few builtins (not shadowed) - enough for building an error message"""
+        ok = lambda x: cls._pure(x, fn, local)
+        if e is None or isinstance(e, (ast.Constant, ast.Name)):
+            return True
+        if isinstance(e, ast.Attribute):
+            return ok(e.value)
+        if isinstance(e, ast.BinOp):
+            return ok(e.left) and ok(e.right)
+        if isinstance(e, ast.JoinedStr):
+            return all(ok(v) for v in e.values)
+        if isinstance(e, ast.FormattedValue):
+            return ok(e.value) and ok(e.format_spec)
+        if isinstance(e, (ast.Tuple, ast.List, ast.Set)):
+            return all(ok(v) for v in e.elts)
+        if isinstance(e, ast.Dict):
+            return all(ok(v) for v in e.keys) and all(ok(v) for v in e.values)
+        if isinstance(e, ast.IfExp):
+            return ok(e.test) and ok(e.body) and ok(e.orelse)
+        if isinstance(e, ast.Compare):
+            return ok(e.left) and all(ok(v) for v in e.comparators)
+        if isinstance(e, ast.BoolOp):
+            return all(ok(v) for v in e.values)
+        if isinstance(e, ast.Subscript):
+            return ok(e.value) and ok(e.slice)
+        if isinstance(e, ast.Call):
+            args = all(ok(a) for a in e.args) and all(ok(k.value) for k in e.keywords)
+            f = e.func
+            if isinstance(f, ast.Name) and f.id in cls.PURE_BUILTINS:
+                import builtins
+                shadowed = f.id in local or f.id in fn.__globals__ or f.id in fn.__code__.co_freevars
+                return args and not shadowed and hasattr(builtins, f.id)
+            if isinstance(f, ast.Attribute) and f.attr in ('format', 'join') and isinstance(f.value, ast.Constant) \
+                    and isinstance(f.value.value, str):
+                return args
+            return False
+        return False
+
+    @staticmethod
+    def _resolve(fn, expr):
+        """the object a Name / dotted Name in `fn` refers to (closure cell, module global, builtin)"""
+        import builtins
+        if isinstance(expr, ast.Attribute):
+            base = C17._resolve(fn, expr.value)
+            return getattr(base, expr.attr, None) if base is not None else None
+        if not isinstance(expr, ast.Name):
+            return None
+        if expr.id in fn.__code__.co_freevars and fn.__closure__:
+            try:
+                return fn.__closure__[fn.__code__.co_freevars.index(expr.id)].cell_contents
+            except ValueError:
+                return None
+        if expr.id in fn.__globals__:
+            return fn.__globals__[expr.id]
+        return getattr(builtins, expr.id, None)
+
+    @classmethod
+    def _raiser_class(cls, fn):
+        """`fn` (a plain Python function object) does nothing but raise: its body is, after an optional docstring,
+        a run of assignments of effect-free expressions to local names, closed by ONE `raise X(...)` / `raise X`
+        with effect-free arguments, where X resolves to an exception class.  No branch, loop, call of anything
+        but a few builtins, no return / yield.  Returns that class, else None."""
+        import inspect
+        import textwrap
+        import types
+        if not isinstance(fn, types.FunctionType):
+            return None
+        try:
+            tree = ast.parse(textwrap.dedent(inspect.getsource(fn)))
+        except Exception:
+            return None
+        if len(tree.body) != 1 or not isinstance(tree.body[0], ast.FunctionDef) or tree.body[0].name != fn.__code__.co_name:
+            return None
+        fdef = tree.body[0]
+        if fn.__code__.co_flags & (inspect.CO_GENERATOR | inspect.CO_COROUTINE | inspect.CO_ASYNC_GENERATOR):
+            return None
+        a = fdef.args
+        local = {x.arg for x in a.posonlyargs + a.args + a.kwonlyargs} | {x.arg for x in (a.vararg, a.kwarg) if x}
+        # every call form must reach the body: (self, *a, **kw) or something at least as accepting is not
+        # demanded here - a call the signature rejects raises TypeError as well
+        body = list(fdef.body)
+        if body and isinstance(body[0], ast.Expr) and isinstance(body[0].value, ast.Constant):
+            body = body[1:]
+        if not body or not isinstance(body[-1], ast.Raise) or body[-1].exc is None:
+            return None
+        for st in body[:-1]:
+            if not (isinstance(st, ast.Assign) and all(isinstance(t, ast.Name) for t in st.targets)
+                    and cls._pure(st.value, fn, local)):
+                return None
+            local |= {t.id for t in st.targets}
+        exc = body[-1].exc
+        if not cls._pure(body[-1].cause, fn, local):
+            return None
+        if isinstance(exc, ast.Call):
+            if not (all(cls._pure(x, fn, local) for x in exc.args) and all(cls._pure(k.value, fn, local) for k in exc.keywords)):
+                return None
+            exc = exc.func
+        if isinstance(exc, ast.Name) and exc.id in local:
+            return None
+        k = cls._resolve(fn, exc)
+        return k if isinstance(k, type) and issubclass(k, BaseException) else None
+
+    @staticmethod
+    def _own_callables(klass, stop):
+        """names the class (or a base before `stop` in its MRO) binds to something callable, first binding wins"""
+        out = []
+        for c in klass.__mro__:
+            if c is stop:
+                break
+            for n, v in c.__dict__.items():
+                if (callable(v) or isinstance(v, (classmethod, staticmethod))) and n not in out:
+                    out.append(n)
+        return out
+
     def regen(self):
-        src = open(os.path.join(REPO, 'boltons', 'dictutils.py')).read()
-        tree = ast.parse(src)
-        cls = [n for n in tree.body if isinstance(n, ast.ClassDef) and n.name == 'FrozenDict'][0]
-        blocked, raises = [], None
-        for n in cls.body:
-            if isinstance(n, ast.Assign) and isinstance(n.value, ast.Name) and n.value.id == '_raise_frozen_typeerror':
-                blocked += [t.id for t in n.targets if isinstance(t, ast.Name)]
-            if isinstance(n, ast.FunctionDef) and n.name == '_raise_frozen_typeerror':
-                body = [s for s in n.body if not (isinstance(s, ast.Expr) and isinstance(s.value, ast.Constant))]
-                if len(body) == 1 and isinstance(body[0], ast.Raise):
-                    e = body[0].exc
-                    if isinstance(e, ast.Call):
-                        e = e.func
-                    if isinstance(e, ast.Name):
-                        raises = e.id
-        # a method the class defines itself is not the raiser any more
-        own = {n.name for n in cls.body if isinstance(n, ast.FunctionDef)}
-        blocked = [b for b in blocked if b not in own]
-        # OneToOne is a dict subclass: a mutating dict method the class body does not define itself is inherited
-        # and writes one side only (that is what `|=` did before d30f0de)
-        oto = [n for n in tree.body if isinstance(n, ast.ClassDef) and n.name == 'OneToOne'][0]
-        oto_own = [n.name for n in oto.body if isinstance(n, ast.FunctionDef)]
+        import inspect
+        from bv.common import ensure_repo_on_path
+        import types
+        blocked, raises, oto_own, m2m_foreign = [], '?', [], ['?']
+        try:
+            ensure_repo_on_path()
+            from boltons import dictutils
+            FD, OTO = dictutils.FrozenDict, dictutils.OneToOne
+            # ManyToMany is modelled as a class of its own: a mutating dict method it has WITHOUT defining it as a
+            # Python function (i.e. inherited from a builtin container it was made a subclass of) would write one side
+            m2m_foreign = [n for n in self.DICT_MUTATORS
+                           if not isinstance(inspect.getattr_static(dictutils.ManyToMany, n, types.FunctionType(
+                               (lambda: None).__code__, {})), types.FunctionType)]
+            kinds = set()
+            for n in self._own_callables(FD, dict):
+                k = self._raiser_class(inspect.getattr_static(FD, n))
+                if k is not None:
+                    blocked.append(n)
+                    # `except TypeError` is what the statement's "raises TypeError" means: a subclass will do
+                    kinds.add('TypeError' if issubclass(k, TypeError) else k.__name__)
+            if blocked:
+                raises = kinds.pop() if len(kinds) == 1 else '?'
+            oto_own = self._own_callables(OTO, dict)
+        except Exception as e:      # the module does not import: empty tables, the proof side does not check
+            self.stats['regen_error'] = repr(e)[:200]
+        # the running interpreter's dict: every method it has must be classified by the model (mutator or not)
+        dict_methods = [n for n, v in dict.__dict__.items() if callable(v) or isinstance(v, (classmethod, staticmethod))]
+        q = lambda xs: ', '.join('"%s"' % b for b in xs)
         text = ('/- GENERATED by harness/bv/props/c17.py (regen) from boltons/dictutils.py - do not edit.\n'
-                '   FrozenDict: the names the class body binds to `_raise_frozen_typeerror`, and the exception\n'
-                '   class that function raises.  OneToOne: the methods the class body defines itself. -/\n'
+                '   FrozenDict: the names the class (evaluated; bases before dict included) binds to a function that\n'
+                '   does nothing but raise, and the exception class raised (TypeError = TypeError or a subclass).\n'
+                '   OneToOne: the callables the class (bases before dict included) binds itself.\n'
+                '   dictMethods: the callables in `dict.__dict__` of the interpreter the check runs under. -/\n'
                 'namespace C17.Generated\n\n'
                 'def frozenBlocked : List String :=\n  [%s]\n\n'
                 'def frozenRaises : String := "%s"\n\n'
                 'def otoDefined : List String :=\n  [%s]\n\n'
-                'end C17.Generated\n') % (', '.join('"%s"' % b for b in blocked), raises or '?',
-                                          ', '.join('"%s"' % b for b in oto_own))
+                'def dictMethods : List String :=\n  [%s]\n\n'
+                '/-- mutating dict methods ManyToMany has without defining them as Python functions (inherited from a\n'
+                '    builtin container) -/\n'
+                'def m2mForeignMutators : List String :=\n  [%s]\n\n'
+                'end C17.Generated\n') % (q(blocked), raises, q(oto_own), q(dict_methods), q(m2m_foreign))
         return {'C17_Frozen.lean': text}
 
     # ------------------------------------------------------------------ generation
@@ -340,11 +512,52 @@ class C17(Property):
                     yield {'t': 'fd', 'items': base[:n], 'ops': [['hash'], ['eq', [list(p) for p in perm], route]]}
         yield {'t': 'fd', 'items': [[1, ['u', 0]], [2, ['h', 1]]], 'ops': [['hash'], ['eq', [[2, ['h', 1]], [1, ['u', 0]]], 'updated'],
                                                                            ['updated', 'list', [[1, ['h', 1]]]], ['hash']]}
+        # round 3: FrozenDicts as VALUES of a FrozenDict (hashable iff their own values are; equal whatever their
+        # insertion order): against the same content with the inner dicts built in another order, along every route
+        inner = [[1, ['h', 3]], [4, ['t', 1]], [2, ['h', 0]]]
+        for n in range(0, 4):
+            for perm in itertools.permutations(inner[:n]):
+                items = [[1, ['f', inner[:n]]], [3, ['h', 1]]]
+                other = [[3, ['h', 1]], [1, ['f', [list(p) for p in perm]]]]
+                for route in self.FD_ROUTES:
+                    yield {'t': 'fd', 'items': items, 'ops': [['hash'], ['eq', other, route], ['copy', 'deepcopy'], ['hash']]}
+        for bad in ([[1, ['u', 0]]], [[1, ['h', 3]], [2, ['u', 1]]]):
+            items = [[1, ['f', bad]], [3, ['h', 1]]]
+            yield {'t': 'fd', 'items': items, 'ops': [['hash'], ['eq', list(reversed(items)), 'updated'], ['copy', 'pickle2'],
+                                                       ['updated', 'list', [[1, ['f', [[1, ['h', 3]]]]]]], ['hash'], ['mut', 'clear']]}
+        yield {'t': 'fd', 'items': [[1, ['f', [[1, ['h', 3]], [1, ['h', 4]]]]]], 'ops': [['eq', [[1, ['f', [[1, ['h', 4]]]]]]], ['hash'],
+                                                                                        ['eq', [[1, ['f', [[1, ['h', 3]]]]]]]]}
         # OneToOne.unique from another instance (+ keyword items that do / do not collide)
         for kw in ([], [[1, 3]], [[1, 5]], [[4, 2]]):
             for side in SIDES:
                 yield {'t': 'oto', 'ops': [['new', 'list', [[1, 2], [2, 3]], []], ['uniq', 'reg', [0, side], kw],
                                            ['set', 1, 'i', 3, 1], ['del', 0, side, 2]]}
+        # round 3: one-shot iterators held by the caller - passed whole, after the caller took items off, passed a
+        # second time (nothing left), to update / |= / the constructors, through either side
+        for side in SIDES:
+            for taken in (0, 1, 2, 4):
+                for first in (['upd', 0, side, 'it', 0, []], ['upd', 0, side, 'it', 0, [[1, 9]]], ['ior', 0, side, 'it', 0],
+                              ['new', 'it', 0, []], ['uniq', 'it', 0, [[4, 3]]]):
+                    for again in (['upd', 0, 'f', 'it', 0, []], ['new', 'it', 0, [[2, 2]]], ['ior', 0, 'i', 'it', 0]):
+                        yield {'t': 'oto', 'ops': [['new', 'dict', [[1, 3], [5, 2]], []], ['mkiter', [[1, 2], [2, 3], [4, 3]]]]
+                               + [['next', 0]] * taken + [first, again, ['set', 0, side, 3, 1]]}
+        yield {'t': 'oto', 'ops': [['new', 'none', [], []], ['mkiter', [[1, 2], [3, 2]]], ['mkiter', [[5, 6]]],
+                                   ['uniq', 'it', 0, []], ['upd', 0, 'f', 'it', 1, []], ['upd', 0, 'i', 'it', 0, []],
+                                   ['ior', 1, 'f', 'it', 1]]}
+        for side in SIDES:
+            for taken in (0, 1, 3):
+                for first in (['upd', 0, side, 'it', 0], ['new', 'it', 0]):
+                    for again in (['upd', 0, 'f', 'it', 0], ['new', 'it', 0], ['upd', 0, 'i', 'it', 0]):
+                        yield {'t': 'm2m', 'ops': [['new', 'list', [[1, 3], [5, 2]]], ['mkiter', [[1, 2], [1, 3], [4, 3]]]]
+                               + [['next', 0]] * taken + [first, again, ['rem', 0, side, 1, 3]]}
+        for kind in ('dict', 'list', 'iter'):
+            yield {'t': 'm2m', 'ops': [['new', kind, [[1, 5], [2, 6], [1, 6]]], ['upd', 0, 'i', kind, [[6, 1], [5, 2], [6, 2]]],
+                                       ['new', 'reg', [0, 'i']], ['upd', 1, 'f', 'reg', [1, 'i']]]}
+        # dict / OrderedDict arguments written with a key twice: the callee sees the key once (first position, last value)
+        for kind in ('dict', 'odict', 'list', 'iter'):
+            for o in ('upd', 'ior'):
+                yield {'t': 'oto', 'ops': [['new', 'none', [], []], [o, 0, 'f', kind, [[1, 5], [2, 6], [1, 6]]] + ([[]] if o == 'upd' else [])]}
+                yield {'t': 'oto', 'ops': [['new', 'dict', [[3, 6]], []], [o, 0, 'i', kind, [[6, 1], [5, 2], [6, 2]]] + ([[]] if o == 'upd' else [])]}
         # a long-held `.inv`: every way of emptying / refilling, then mutate through the reference taken at creation
         for emptier in (['clear', 0, 'f'], ['clear', 0, 'i'], ['popitem', 0, 'f'], ['pop', 0, 'i', 3, None], ['del', 0, 'f', 1]):
             for filler in (['set', 0, 'i', 2, 4], ['upd', 0, 'f', 'dict', [[4, 2]], []], ['ior', 0, 'i', 'iter', [[2, 4]]], ['sd', 0, 'i', 2, 4]):
@@ -487,10 +700,31 @@ class C17(Property):
         kinds = ['dict', 'list', 'iter', 'odict']
         ops = [['new', rng.choice(['none'] + kinds), self.rpairs(rng, ids), self.rkw(rng, ids)]]
         nregs = 1
+        nits = 0          # one-shot iterators the caller holds on to (created, partly consumed, passed, passed again)
+        use_its = rng.random() < 0.35
         for _ in range(nops):
             r, s = rng.randrange(nregs), rng.choice(SIDES)
             x = rng.random()
             k, v = rng.choice(ids), rng.choice(ids)
+            if use_its:
+                y = rng.random()
+                if y < 0.08 and nits < 4:
+                    ops.append(['mkiter', self.rpairs(rng, ids, 0, 5)])
+                    nits += 1
+                    continue
+                if nits and y < 0.12:
+                    ops.append(['next', rng.randrange(nits)])
+                    continue
+                if nits and y < 0.3:
+                    it, z = rng.randrange(nits), rng.random()
+                    if z < 0.5:
+                        ops.append(['upd', r, s, 'it', it, self.rkw(rng, ids)])
+                    elif z < 0.75:
+                        ops.append(['ior', r, s, 'it', it])
+                    elif nregs < 4:
+                        ops.append([rng.choice(['new', 'uniq']), 'it', it, self.rkw(rng, ids)])
+                        nregs += 1
+                    continue
             if x < 0.25:
                 ops.append(['set', r, s, k, v])
             elif x < 0.33:
@@ -542,10 +776,29 @@ class C17(Property):
         if ops[0][1] == 'dict':
             ops[0][2] = self.dedup_keys(ops[0][2])
         nregs = 1
+        nits = 0
+        use_its = rng.random() < 0.3
         for _ in range(nops):
             r, s = rng.randrange(nregs), rng.choice(SIDES)
             x = rng.random()
             k, v = rng.choice(ids), rng.choice(ids)
+            if use_its:
+                y = rng.random()
+                if y < 0.08 and nits < 4:
+                    ops.append(['mkiter', self.rpairs(rng, ids, 0, 5)])
+                    nits += 1
+                    continue
+                if nits and y < 0.12:
+                    ops.append(['next', rng.randrange(nits)])
+                    continue
+                if nits and y < 0.3:
+                    it = rng.randrange(nits)
+                    if rng.random() < 0.7 or nregs >= 4:
+                        ops.append(['upd', r, s, 'it', it])
+                    else:
+                        ops.append(['new', 'it', it])
+                        nregs += 1
+                    continue
             if x < 0.25:
                 ops.append(['add', r, s, k, v])
             elif x < 0.4:
@@ -561,7 +814,8 @@ class C17(Property):
                     ops.append(['upd', r, s, 'reg', [rng.randrange(nregs), rng.choice(SIDES)]])
                 else:
                     ps = self.rpairs(rng, ids)
-                    ops.append(['upd', r, s, kind, self.dedup_keys(ps) if kind == 'dict' else ps])
+                    # a mapping written with a key twice holds the key once, with the last value
+                    ops.append(['upd', r, s, kind, self.dedup_keys(ps) if kind == 'dict' and rng.random() < 0.5 else ps])
             elif x < 0.88:
                 ops.append(['rep', r, s, k, v])
             elif nregs < 4:
@@ -581,13 +835,21 @@ class C17(Property):
             d[k] = v
         return [[k, v] for k, v in d.items()]
 
-    def rfpairs(self, rng, ids, lo=0, hi=4, unh=0.15, tok=0.25):
+    def rfpairs(self, rng, ids, lo=0, hi=4, unh=0.15, tok=0.25, nest=0.08):
+        small = [i for i in ids if i < 16] or [1]
+
         def v():
             x = rng.random()
             if x < unh:
                 return ['u', rng.randrange(3)]
             if x < unh + tok:
                 return ['t', rng.randrange(3)]
+            if x < unh + tok + nest:
+                # a FrozenDict as a value (one level): hashable iff its own values are
+                def w():
+                    y = rng.random()
+                    return ['u', rng.randrange(3)] if y < unh / 2 else ['t', rng.randrange(3)] if y < 0.3 else ['h', rng.choice(small)]
+                return ['f', [[rng.choice(small), w()] for _ in range(rng.randint(0, 3))]]
             return ['h', rng.choice(ids)]
         return [[rng.choice(ids), v()] for _ in range(rng.randint(lo, hi))]
 
@@ -640,10 +902,27 @@ class C17(Property):
     def _fv(v):
         if v[0] == 't':
             return 'h%d' % (TOKEN_BASE + v[1])
+        if v[0] == 'f':
+            return '%s%d' % ('u' if funh(v) else 'h', fcode(v[1]))
         return '%s%d' % (v[0], v[1])
 
     def _fps(self, ps):
         return ','.join('%d:%s' % (k, self._fv(v)) for k, v in ps) or '-'
+
+    def _argtok(self, kind, payload):
+        if kind == 'none':
+            return 'n'
+        if kind in ('dict', 'odict'):
+            return 'd' + self._ps(payload)
+        if kind == 'list':
+            return 'p' + self._ps(payload)
+        if kind == 'iter':
+            return 'j' + self._ps(payload)
+        if kind == 'it':
+            return 'i%d' % payload
+        if kind == 'reg':
+            return 'r%d.%s' % (payload[0], payload[1])
+        raise ValueError(kind)
 
     def _flat(self, kind, ps, kw=()):
         """pairs an argument of this kind delivers (a dict argument cannot hold a key twice)"""
@@ -661,19 +940,33 @@ class C17(Property):
         t = case['t']
         toks = [t]
         if t == 'oto':
-            obs = self._obs_for(case) if any(op[0] == 'popitem' for op in case['ops']) else []
+            obs = self._obs_for(case) if any(op[0] == 'popitem' for op in case['ops']) else None
             for n, op in enumerate(case['ops']):
                 o = op[0]
                 if o in ('new', 'uniq'):
                     c = 'N' if o == 'new' else 'Q'
                     if o == 'new' and op[1] == 'reg' and op[3]:
                         # OneToOne(other, **kw) with colliding values: WHICH key of a value survives depends on
-                        # the iteration order of `other`, which the statement leaves open -> oracle only
-                        return None
-                    if op[1] == 'reg':
-                        toks.append('%sR/%d/%s/%s' % (c, op[2][0], op[2][1], self._ps(op[3])))
-                    else:
-                        toks.append('%s/%s' % (c, self._ps(self._flat(op[1], op[2] if op[1] != 'none' else [], op[3]))))
+                        # the iteration order of `other`, which the statement leaves open: the model is told which
+                        # items the implementation's new instance holds and accepts any admissible outcome
+                        # (`OTO.ofPairsAs`, theorem oto_ctor_any_spec), falling back to its own order otherwise
+                        if obs is None:
+                            obs = self._obs_for(case)
+                        hint = None
+                        if n < len(obs) and 'exc' not in obs[n] and obs[n].get('dump'):
+                            fw = obs[n]['dump'][-1][0]
+                            if all(isinstance(a, int) and isinstance(b, int) for a, b in fw):
+                                hint = fw
+                        if hint is not None:
+                            toks.append('N/%s/%s/%s' % (self._argtok(op[1], op[2]), self._ps(op[3]), self._ps(hint)))
+                            continue
+                    # the argument travels RAW (kind + pairs as written): de-duplication of dict / keyword
+                    # arguments and the one pass over an iterator are the model's business (Args.lean)
+                    toks.append('%s/%s/%s' % (c, self._argtok(op[1], op[2]), self._ps(op[3])))
+                elif o == 'mkiter':
+                    toks.append('MI/' + self._ps(op[1]))
+                elif o == 'next':
+                    toks.append('NX/%d' % op[1])
                 elif o == 'copy':
                     toks.append('C/%d/%s' % (op[1], op[2]))
                 elif o == 'set':
@@ -682,10 +975,7 @@ class C17(Property):
                     toks.append('D/%d/%s/%d' % tuple(op[1:]))
                 elif o in ('upd', 'ior'):
                     kw = op[5] if o == 'upd' else []
-                    if op[3] == 'reg':
-                        toks.append('UR/%d/%s/%d/%s/%s' % (op[1], op[2], op[4][0], op[4][1], self._ps(kw)))
-                    else:
-                        toks.append('U/%d/%s/%s' % (op[1], op[2], self._ps(self._flat(op[3], op[4], kw))))
+                    toks.append('U/%d/%s/%s/%s' % (op[1], op[2], self._argtok(op[3], op[4]), self._ps(kw)))
                 elif o == 'sd':
                     toks.append('F/%d/%s/%d/%d' % (op[1], op[2], op[3], 0 if op[4] is None else op[4]))
                 elif o == 'pop':
@@ -693,7 +983,7 @@ class C17(Property):
                 elif o == 'popitem':
                     # which pair goes is the implementation's choice (the statement does not fix it): the model
                     # accepts any pair the instance holds, and falls back to dict's LIFO otherwise
-                    r = obs[n].get('ret') if n < len(obs) and 'exc' not in obs[n] else None
+                    r = obs[n].get('ret') if obs is not None and n < len(obs) and 'exc' not in obs[n] else None
                     hint = '/%d:%d' % tuple(r) if isinstance(r, list) and all(isinstance(z, int) for z in r) else ''
                     toks.append('I/%d/%s%s' % (op[1], op[2], hint))
                 elif o == 'clear':
@@ -701,13 +991,17 @@ class C17(Property):
                 else:
                     return None
         elif t == 'm2m':
+            toks.append('X/' + (','.join(map(str, self._m2m_probe(case))) or '-'))
             for op in case['ops']:
                 o = op[0]
                 if o == 'new':
-                    if op[1] == 'reg':
-                        toks.append('NR/%d/%s' % (op[2][0], op[2][1]))
-                    else:
-                        toks.append('N/%s' % self._ps(self._flat(op[1], op[2] if op[1] != 'none' else [])))
+                    # arguments travel raw (kind + pairs as written): Args.lean walks a mapping by keys, a list /
+                    # iterator in one pass, and keeps the held iterators
+                    toks.append('N/%s' % self._argtok(op[1], op[2]))
+                elif o == 'mkiter':
+                    toks.append('MI/' + self._ps(op[1]))
+                elif o == 'next':
+                    toks.append('NX/%d' % op[1])
                 elif o == 'add':
                     toks.append('A/%d/%s/%d/%d' % tuple(op[1:]))
                 elif o == 'rem':
@@ -717,10 +1011,7 @@ class C17(Property):
                 elif o == 'del':
                     toks.append('D/%d/%s/%d' % tuple(op[1:]))
                 elif o == 'upd':
-                    if op[3] == 'reg':
-                        toks.append('UR/%d/%s/%d/%s' % (op[1], op[2], op[4][0], op[4][1]))
-                    else:
-                        toks.append('U/%d/%s/%s' % (op[1], op[2], self._ps(self._flat(op[3], op[4]))))
+                    toks.append('U/%d/%s/%s' % (op[1], op[2], self._argtok(op[3], op[4])))
                 elif o == 'rep':
                     toks.append('P/%d/%s/%d/%d' % tuple(op[1:]))
                 else:
@@ -786,13 +1077,18 @@ class C17(Property):
     def impl_oto(self, case):
         from boltons.dictutils import OneToOne
         regs, out = [], []
+        its = []      # one-shot iterators the "caller" holds on to
 
         def held(x):
             return [x, x.inv]
         for n, op in enumerate(case['ops']):
             o, rec = op[0], {'ret': '-'}
             try:
-                if o in ('new', 'uniq'):
+                if o == 'mkiter':
+                    its.append(one_shot(mkpairs(op[1], n)))
+                elif o == 'next':
+                    next(its[op[1]], None)
+                elif o in ('new', 'uniq'):
                     ctor = OneToOne if o == 'new' else OneToOne.unique
                     kw = {mk(k): mk(v, n) for k, v in op[3]}
                     new = None
@@ -801,6 +1097,8 @@ class C17(Property):
                             new = ctor(**kw)
                         elif op[1] == 'reg':
                             new = ctor(self._side(regs[op[2][0]], op[2][1]), **kw)
+                        elif op[1] == 'it':
+                            new = ctor(its[op[2]], **kw)
                         else:
                             new = ctor(self._arg(op[1], op[2], n), **kw)
                     finally:
@@ -814,7 +1112,8 @@ class C17(Property):
                     elif o == 'del':
                         del x[mk(op[3], n)]
                     elif o in ('upd', 'ior'):
-                        src = self._side(regs[op[4][0]], op[4][1]) if op[3] == 'reg' else self._arg(op[3], op[4], n)
+                        src = (self._side(regs[op[4][0]], op[4][1]) if op[3] == 'reg' else
+                               its[op[4]] if op[3] == 'it' else self._arg(op[3], op[4], n))
                         if o == 'upd':
                             x.update(src, **{mk(k): mk(v, n) for k, v in op[5]})
                         else:
@@ -845,13 +1144,26 @@ class C17(Property):
             out.append(rec)
         return out
 
+    @staticmethod
+    def _m2m_item(x, k):
+        try:
+            return sorted(oid(v) for v in x[k])
+        except KeyError:
+            return 'X'
+
     def _m2m_dump(self, x, probe):
         keys = [oid(k) for k in x.keys()]
         return {'keys': keys, 'iter': [oid(k) for k in x], 'len': len(x),
                 'grp': [[oid(k), sorted(oid(v) for v in x[k])] for k in x.keys()],
                 'pairs': [[oid(k), oid(v)] for k, v in x.iteritems()],
                 'get': [[i, sorted(oid(v) for v in x.get(mk(i, i)))] for i in probe],
-                'has': [[i, 1 if mk(i, i + 1) in x else 0] for i in probe]}
+                'has': [[i, 1 if mk(i, i + 1) in x else 0] for i in probe],
+                'item': [[i, self._m2m_item(x, mk(i, i + 2))] for i in probe]}
+
+    def _m2m_probe(self, case):
+        # reader probes: every id the history mentions plus two it does not
+        used = {i for i in self._ids_in(case['ops'], set()) if i < len(OBJ)}
+        return sorted(used | set([i for i in range(NSMALL) if i not in used][:2]))
 
     @staticmethod
     def _ids_in(z, acc):
@@ -865,22 +1177,27 @@ class C17(Property):
     def impl_m2m(self, case):
         from boltons.dictutils import ManyToMany
         regs, out = [], []
-        used = {i for i in self._ids_in(case['ops'], set()) if i < len(OBJ)}
-        # reader probes: every id the history mentions plus two it does not
-        probe = sorted(used | set([i for i in range(NSMALL) if i not in used][:2]))
+        probe = self._m2m_probe(case)
 
         def held(x):
             return [x, x.inv]
+        its = []      # one-shot iterators the "caller" holds on to
         for n, op in enumerate(case['ops']):
             o, rec = op[0], {'ret': '-'}
             try:
-                if o == 'new':
+                if o == 'mkiter':
+                    its.append(one_shot(mkpairs(op[1], n)))
+                elif o == 'next':
+                    next(its[op[1]], None)
+                elif o == 'new':
                     new = None
                     try:
                         if op[1] == 'none':
                             new = ManyToMany()
                         elif op[1] == 'reg':
                             new = ManyToMany(self._side(regs[op[2][0]], op[2][1]))
+                        elif op[1] == 'it':
+                            new = ManyToMany(its[op[2]])
                         else:
                             new = ManyToMany(self._arg(op[1], op[2], n))
                     finally:
@@ -897,7 +1214,8 @@ class C17(Property):
                     elif o == 'del':
                         del x[mk(op[3], n)]
                     elif o == 'upd':
-                        x.update(self._side(regs[op[4][0]], op[4][1]) if op[3] == 'reg' else self._arg(op[3], op[4], n))
+                        x.update(self._side(regs[op[4][0]], op[4][1]) if op[3] == 'reg' else
+                                 its[op[4]] if op[3] == 'it' else self._arg(op[3], op[4], n))
                     elif o == 'rep':
                         x.replace(mk(op[3], n), mk(op[4], n + 1))
             except CaseTimeout:
@@ -1082,7 +1400,8 @@ class C17(Property):
             except CaseTimeout:
                 raise
             except Exception as e:
-                rec['exc'] = exc_name(e)
+                # "raises TypeError" = what `except TypeError` catches: a subclass is a TypeError too
+                rec['exc'] = 'TypeError' if (o == 'mut' and isinstance(e, TypeError)) else exc_name(e)
             rec['items'] = self._fitems(fd)
             out.append(rec)
         return out
@@ -1096,7 +1415,7 @@ class C17(Property):
         return ','.join('%s:%s' % (k, v) for k, v in ps) or '-'
 
     def _rfp(self, ps):
-        return ','.join('%s:%s' % (k, self._fv(v) if isinstance(v[1], int) else '%s%s' % (v[0], v[1]))
+        return ','.join('%s:%s' % (k, self._fv(v) if (isinstance(v[1], int) or v[0] == 'f') else '%s%s' % (v[0], v[1]))
                         for k, v in ps) or '-'
 
     def _ret(self, rec):
@@ -1132,10 +1451,19 @@ class C17(Property):
 
             def prs(d):
                 return self._rp(sorted(d['pairs'], key=lambda p: (self._key(p[0]), self._key(p[1]))))
+
+            def srt(xs):
+                return '.'.join(map(str, sorted(xs, key=self._key))) or '-'
+
+            def rd(d):
+                # the readers on the probe keys: len ~ keys() ~ get(k) ~ k in m ~ m[k] (X = KeyError)
+                return '%d~%s~%s~%s~%s' % (d['len'], srt(d['keys']), ','.join(srt(g) for _, g in d['get']),
+                                           ''.join(str(h) for _, h in d['has']),
+                                           ','.join('X' if g == 'X' else srt(g) for _, g in d['item']))
             for rec in obs:
                 parts = [self._ret(rec)]
                 for d in rec.get('dump', []):
-                    parts.append('F%s/P%s/I%s/Q%s' % (grp(d[0]), prs(d[0]), grp(d[1]), prs(d[1])))
+                    parts.append('F%s/P%s/I%s/Q%s/Z%s/z%s' % (grp(d[0]), prs(d[0]), grp(d[1]), prs(d[1]), rd(d[0]), rd(d[1])))
                 # the model side runs two machines (heap-level and by-value) and says whether they agree (V1) and
                 # whether every set object is referenced once only (S1); the implementation has nothing to add
                 parts.append('V1S1')
@@ -1196,6 +1524,28 @@ class C17(Property):
         """the bijection after `x[k] = v`: the pair holding key k and the pair holding value v give way"""
         return {(a, b) for a, b in P if a != k and b != v} | {(k, v)}
 
+    def _walk_any_order(self, before, stages, R):
+        """the bijection after the stages: a 'seq' stage is applied in order; the items of an 'any' stage (a dict: keys
+        unique) commute unless they carry the same value - then the last one applied keeps it, and the one chosen
+        to be last is the one the observed result R shows (or one a later stage overwrites)"""
+        P = set(before)
+        for si, (kind, pairs) in enumerate(stages):
+            order = pairs
+            if kind == 'any':
+                later = {k for _, pp in stages[si + 1:] for k, _ in pp}
+                groups = OrderedDict()
+                for k, v in pairs:
+                    groups.setdefault(v, []).append(k)
+                order = []
+                for v, ks in groups.items():
+                    win = next((k for k in ks if (k, v) in R), None)
+                    if win is None:
+                        win = next((k for k in ks if k in later), ks[0])
+                    order += [[k, v] for k in ks if k != win] + [[win, v]]
+            for k, v in order:
+                P = self._oto_set(P, k, v)
+        return P
+
     def _dictpairs(self, kind, ps, kw=()):
         d = {}
         for k, v in self._flat(kind, ps if kind != 'none' else [], kw):
@@ -1204,6 +1554,7 @@ class C17(Property):
 
     def oracle_oto(self, case, obs):
         refs = []      # per instance: set of (k, v), as seen from the forward side
+        iters = []     # per held one-shot iterator: the pairs it still has to yield
         for n, op in enumerate(case['ops']):
             if n >= len(obs):
                 return Failure('missing', 'no observation for %r' % (op,))
@@ -1212,7 +1563,21 @@ class C17(Property):
             exp_ret = '-'
             tgt = None
             loose_ctor = None
-            if o in ('new', 'uniq'):
+            loose_upd = None
+            # a held iterator hands what it has left to the ONE pass the callee makes, and is empty afterwards
+            if o in ('new', 'uniq') and op[1] == 'it':
+                left, iters[op[2]] = iters[op[2]], []
+                op = [o, 'list', left, op[3]]
+                self._nt = True
+            elif o in ('upd', 'ior') and op[3] == 'it':
+                left, iters[op[4]] = iters[op[4]], []
+                op = op[:3] + ['list', left] + op[5:]
+                self._nt = True
+            if o == 'mkiter':
+                iters.append([list(pr) for pr in op[1]])
+            elif o == 'next':
+                iters[op[1]] = iters[op[1]][1:]
+            elif o in ('new', 'uniq'):
                 if op[1] == 'reg':
                     src = refs[op[2][0]]
                     d = dict(src if op[2][1] == 'f' else {(b, a) for a, b in src})
@@ -1261,6 +1626,15 @@ class C17(Property):
                         self._nt = True
                     else:
                         ps = self._flat(op[3], op[4], op[5] if o == 'upd' else [])
+                    # the callee walks the positional argument, then the keyword items.  A dict (or the keyword
+                    # dict) that carries ONE value under two keys: only one of them can keep it, and the statement
+                    # does not say which - it depends on the order the callee walks that dict in
+                    kwp = [list(x) for x in (op[5] if o == 'upd' else [])]
+                    pos = [list(x) for x in ps[:len(ps) - len(kwp)]]
+                    stages = [('any' if op[3] in ('dict', 'odict') else 'seq', pos), ('any', kwp)]
+                    if any(kind == 'any' and len({v for _, v in pp}) != len(pp) for kind, pp in stages):
+                        loose_upd = (set(P), stages, inv)
+                        self._nt = True
                     for k, v in ps:
                         if any((a == k) != (b == v) for a, b in P):
                             self._nt = True
@@ -1328,6 +1702,12 @@ class C17(Property):
                     if not (sf <= set(dd.items()) and {b for _, b in sf} == set(dd.values())):
                         return Failure('ctor', '%s: constructed %r from %r' % (who, fw, dd))
                     refs[i] = P = sf
+                elif loose_upd is not None and i == tgt and 'exc' not in rec and sf != P:
+                    # not what walking each dict in its own order gives: walking it in another order is as good
+                    before, stages, thru_inv = loose_upd
+                    R = {(b, a) for a, b in sf} if thru_inv else sf
+                    if self._walk_any_order(before, stages, R) == R:
+                        refs[i] = P = sf
                 if sf != P:
                     tag = 'effect' if i == tgt or tgt is None else 'isolation'
                     return Failure(tag, '%s: holds %r, expected %r%s' % (
@@ -1337,12 +1717,25 @@ class C17(Property):
 
     def oracle_m2m(self, case, obs):
         refs = []      # per instance: set of (k, v) as seen from the forward side
+        iters = []     # per held one-shot iterator: the pairs it still has to yield
         for n, op in enumerate(case['ops']):
             if n >= len(obs):
                 return Failure('missing', 'no observation for %r' % (op,))
             rec, o = obs[n], op[0]
             exp_exc, tgt = None, None
-            if o == 'new':
+            if o == 'new' and op[1] == 'it':
+                left, iters[op[2]] = iters[op[2]], []
+                op = ['new', 'list', left]
+                self._nt = True
+            elif o == 'upd' and op[3] == 'it':
+                left, iters[op[4]] = iters[op[4]], []
+                op = op[:3] + ['list', left]
+                self._nt = True
+            if o == 'mkiter':
+                iters.append([list(pr) for pr in op[1]])
+            elif o == 'next':
+                iters[op[1]] = iters[op[1]][1:]
+            elif o == 'new':
                 if op[1] == 'reg':
                     src = refs[op[2][0]]
                     refs.append(set(src) if op[2][1] == 'f' else {(b, a) for a, b in src})
@@ -1426,11 +1819,16 @@ class C17(Property):
 
     def oracle_fd(self, case, obs):
         def val(v):
+            if v[0] == 'f':
+                return ('f', frozenset((k, x) for k, x in fcanon(v[1])))
             return (v[0], v[1])
+
+        def unh(t):
+            return t[0] == 'u' or (t[0] == 'f' and any(x[0] == 'u' for _, x in t[1]))
         ref = {}
         for k, v in case['items']:
             ref[k] = val(v)
-        hashable = all(v[0] != 'u' for v in ref.values())
+        hashable = not any(unh(v) for v in ref.values())
 
         def asdict(items):
             return {k: val(v) for k, v in items}
@@ -1492,7 +1890,7 @@ class C17(Property):
                 if asdict(rec['res']) != want or len(rec['res']) != len(want):
                     return Failure('updated', 'updated(%r) = %r' % (op[2], rec['res']))
                 self._nt = self._nt or bool(op[2])
-                f = self._derived_oracle('updated(%r)' % (op[2],), rec, all(v[0] != 'u' for v in want.values()))
+                f = self._derived_oracle('updated(%r)' % (op[2],), rec, not any(unh(v) for v in want.values()))
                 if f:
                     return f
             elif o == 'copy':
@@ -1519,7 +1917,7 @@ class C17(Property):
                 want = {k: val(op[2]) for k in op[1]}
                 if asdict(rec['res']) != want or len(rec['res']) != len(want):
                     return Failure('fromkeys', 'fromkeys(%r, %r) = %r' % (op[1], op[2], rec['res']))
-                f = self._derived_oracle('fromkeys(%r, %r)' % (op[1], op[2]), rec, op[2][0] != 'u' or not op[1])
+                f = self._derived_oracle('fromkeys(%r, %r)' % (op[1], op[2]), rec, not funh(op[2]) or not op[1])
                 if f:
                     return f
         return None
@@ -1550,6 +1948,8 @@ class C17(Property):
         first = 0 if case['t'] == 'fd' else 1
         nregs_ops = ('new', 'uniq', 'copy')
         for i in range(len(ops) - 1, first - 1, -1):
+            if ops[i][0] == 'mkiter':
+                continue      # later commands name iterators by position
             if case['t'] != 'fd' and ops[i][0] in nregs_ops:
                 # dropping a constructor renumbers later registers: only drop it when nothing after refers to it
                 idx = sum(1 for o in ops[:i] if o[0] in nregs_ops)
@@ -1572,6 +1972,8 @@ class C17(Property):
 
     @staticmethod
     def _refs(op, idx):
+        if op[0] in ('mkiter', 'next'):
+            return False
         if op[0] in ('new', 'uniq'):
             return op[1] == 'reg' and op[2][0] >= idx and op[2][0] == idx
         if op[0] == 'copy':
@@ -1583,6 +1985,8 @@ class C17(Property):
     @staticmethod
     def _renum(op, idx):
         op = [list(a) if isinstance(a, list) else a for a in op]
+        if op[0] in ('mkiter', 'next'):
+            return op
         if op[0] in ('new', 'uniq'):
             if op[1] == 'reg' and op[2][0] > idx:
                 op[2][0] -= 1
